@@ -272,3 +272,30 @@ def first_claim_loop(fn):
             "claimed_all_return": all(q.status == "return" for q in yes),
             "falls_through": all(q.status in (None, "continue") for q in no),
             "exhausted_raises": all(q.status == "raise" for q in ex.paths if q.status != "return")}
+
+
+def lookup_next(fn):
+    """`X = next((e for e in C if e.K == V), None)` followed by `if X is not None: <found> else: <orelse>`
+    -> dict like lookup_loop (elem = X) or None."""
+    import ast as _ast
+    from ..model import norm as _norm
+    for a in _ast.walk(fn):
+        if not (isinstance(a, _ast.Assign) and len(a.targets) == 1 and isinstance(a.targets[0], _ast.Name) and isinstance(a.value, _ast.Call)
+                and _norm(a.value.func) == "next" and len(a.value.args) == 2 and isinstance(a.value.args[0], _ast.GeneratorExp)
+                and isinstance(a.value.args[1], _ast.Constant) and a.value.args[1].value is None):
+            continue
+        g = a.value.args[0]
+        if len(g.generators) != 1 or len(g.generators[0].ifs) != 1 or not isinstance(g.generators[0].target, _ast.Name) or _norm(g.elt) != g.generators[0].target.id:
+            continue
+        x, e = a.targets[0].id, g.generators[0].target.id
+        par = getattr(a, "_parent", None)
+        body = getattr(par, "body", None)
+        for blk in [b for b in (getattr(par, "body", None), getattr(par, "orelse", None)) if isinstance(b, list) and a in b]:
+            i = blk.index(a)
+            if i + 1 < len(blk) and isinstance(blk[i + 1], _ast.If) and _norm(blk[i + 1].test) in (f"{x} is not None", f"{x} is None"):
+                nxt = blk[i + 1]
+                found, orelse = (nxt.body, nxt.orelse) if _norm(nxt.test) == f"{x} is not None" else (nxt.orelse, nxt.body)
+                import re as _re
+                test = _re.sub(rf"\b{e}\b", x, _norm(g.generators[0].ifs[0]))
+                return {"collection": _norm(g.generators[0].iter), "elem": x, "test": test, "found": found, "orelse": orelse, "loop": nxt, "first_match": True}
+    return None
